@@ -153,7 +153,11 @@ func init() {
 	registerPlanCheck("C34", "translation_validation", planRule("all"), 50*time.Second, 12*time.Minute, realStub)
 	registerPlanCheck("C31", "exploration", planRule("all"), 50*time.Second, 12*time.Minute, realStub)
 	registerPlanCheck("C26", "exploration", planRule("contract lifecycle"), 50*time.Second, 12*time.Minute, realStub)
+	registerPlanCheck("C25", "exploration", planRule("capability (issue/retarget/tag/delete, derived capabilities, publish/unpublish/get/borrow, inbox)"), 50*time.Second, 12*time.Minute, realStub)
 	checks["C26"].Worker = c26Worker
+	checks["C27"] = &CheckSpec{Prop: "C27", Level: "exploration", QuickBudget: 60 * time.Second, ThoroughBudget: 10 * time.Minute, Assumptions: []string{realStub},
+		Rule:   "every mutation of a fixed grammar of 45 contract-update mutations (field add/remove/retype/reorder/rename, access and let changes, conformance add/remove, kind change, nested declaration add/remove with and without #removedType, enum case add/remove/reorder/rename, raw type change, interface changes) x engine (interp, vm) x update|tryUpdate x restart|warm process; history: deploy v1, store struct / array / dictionary / resource / enum / interface-typed instances in two accounts, update, (restart), probe script generated from the new declaration; a trial is non-trivial always; distinct by (mutation, engine, via, restart)",
+		Worker: c27Worker}
 	for _, p := range []string{"C33", "C31", "C34", "C01"} {
 		checks[p].VaryCPUs = true
 	}
